@@ -773,6 +773,67 @@ pub fn write_substore_docs(sub: &std::path::Path, i: usize) -> std::path::PathBu
     rootpath
 }
 
+/// STAM CSV and the files around the tables: a resource known by its file name only, a loaded store saved again after a
+/// change, resources whose derived file names would coincide
+fn check_csv_files(rep: &mut Report, dir: &std::path::Path) {
+    let describe = |st: &AnnotationStore| -> Vec<String> {
+        let mut v: Vec<String> = st.resources().map(|r| format!("resource {:?} text {:?}", r.id().map(|x| x.rsplit('/').next().unwrap_or(x).to_string()), r.text())).collect();
+        v.extend(st.annotations().map(|a| format!("annotation {:?} text {:?} data {:?}", a.id(), a.text_join("|"), a.data().map(|d| format!("{}={:?}", d.key().id().unwrap_or("?"), d.value())).collect::<Vec<_>>())));
+        v.sort();
+        v
+    };
+    let run = |rep: &mut Report, name: &str, what: &str, f: &dyn Fn(&std::path::Path) -> Result<(Vec<String>, Vec<String>), String>| {
+        let sub = dir.join(format!("csvf-{}", name));
+        let _ = std::fs::remove_dir_all(&sub);
+        std::fs::create_dir_all(&sub).ok();
+        rep.count(&format!("csv:files:{}", name));
+        rep.case(Some(&format!("csv-files {}", name)));
+        let ctx = vec![what.to_string()];
+        match guarded(std::panic::AssertUnwindSafe(|| f(&sub))) {
+            Err(m) => rep.fail("panic", &format!("C15/files/{}/panics", name), ctx, "a round trip", &m),
+            Ok(Err(e)) => rep.fail("oracle", &format!("C15/files/{}/fails", name), ctx, "the store is written and read back", &e),
+            Ok(Ok((want, got))) => if want != got { let (x, y) = first_diff(&want, &got); rep.fail("oracle", &format!("C15/files/{}/differs", name), ctx, &x, &y); },
+        }
+        std::fs::remove_dir_all(&sub).ok();
+    };
+    let e = |x: StamError| format!("{}", x);
+    run(rep, "resource-known-by-its-file-name", "a resource added by (absolute) file name only, no identifier; the store saved as CSV next to the text file", &|sub| {
+        let txt = sub.join("hello.txt");
+        std::fs::write(&txt, "hello world").map_err(|x| x.to_string())?;
+        let mut st = AnnotationStore::default().with_id("s");
+        st.add_resource(TextResourceBuilder::new().with_filename(txt.to_str().unwrap())).map_err(e)?;
+        let rid = st.resources().next().and_then(|r| r.id().map(|x| x.to_string())).ok_or("no id")?;
+        st.annotate(AnnotationBuilder::new().with_id("a1").with_target(SelectorBuilder::textselector(rid.as_str(), Offset::simple(0, 5))).with_data_with_id("set", "k", "v", "d1")).map_err(e)?;
+        let want = describe(&st);
+        let path = sub.join("x.store.stam.csv");
+        st.to_file(path.to_str().unwrap()).map_err(e)?;
+        let st2 = AnnotationStore::from_file(path.to_str().unwrap(), Config::default()).map_err(e)?;
+        Ok((want, describe(&st2)))
+    });
+    run(rep, "loaded-store-saved-again", "a CSV store loaded from its directory, one annotation added, saved again and read back", &|sub| {
+        let mut st = AnnotationStore::default().with_id("s").with_resource(TextResourceBuilder::new().with_id("r").with_text("hello world")).map_err(e)?;
+        st.annotate(AnnotationBuilder::new().with_id("a1").with_target(SelectorBuilder::textselector("r", Offset::simple(0, 5))).with_data_with_id("set", "k", "v", "d1")).map_err(e)?;
+        let path = sub.join("x.store.stam.csv");
+        st.to_file(path.to_str().unwrap()).map_err(e)?;
+        let mut st2 = AnnotationStore::from_file(path.to_str().unwrap(), Config::default()).map_err(e)?;
+        st2.annotate(AnnotationBuilder::new().with_id("a2").with_target(SelectorBuilder::textselector("r", Offset::simple(6, 11))).with_data_with_id("set", "k", "w", "d2")).map_err(e)?;
+        let want = describe(&st2);
+        st2.save().map_err(e)?;
+        let st3 = AnnotationStore::from_file(path.to_str().unwrap(), Config::default()).map_err(e)?;
+        Ok((want, describe(&st3)))
+    });
+    run(rep, "resource-names-that-share-a-stem", "two in-memory resources whose identifiers share a stem (notes.txt, notes.md), saved as CSV and read back", &|sub| {
+        let mut st = AnnotationStore::default().with_id("s").with_resource(TextResourceBuilder::new().with_id("notes.txt").with_text("first text")).map_err(e)?.with_resource(TextResourceBuilder::new().with_id("notes.md").with_text("second text")).map_err(e)?;
+        st.annotate(AnnotationBuilder::new().with_id("a1").with_target(SelectorBuilder::textselector("notes.txt", Offset::simple(0, 5))).with_data_with_id("set", "k", "v", "d1")).map_err(e)?;
+        st.annotate(AnnotationBuilder::new().with_id("a2").with_target(SelectorBuilder::textselector("notes.md", Offset::simple(0, 6))).with_data_with_id("set", "k", "w", "d2")).map_err(e)?;
+        let want = describe(&st);
+        let path = sub.join("x.store.stam.csv");
+        st.to_file(path.to_str().unwrap()).map_err(e)?;
+        let st2 = AnnotationStore::from_file(path.to_str().unwrap(), Config::default()).map_err(e)?;
+        Ok((want, describe(&st2)))
+    });
+}
+
 /// a public identifier in the shape of a temporary one (`!A8`, `!D5`): the API accepts it and (since the fix recorded for C03)
 /// finds the item by it; the serialisation formats reserve that shape for temporary identifiers
 fn check_temp_shaped_public_ids(rep: &mut Report, property: Option<&str>, dir: &std::path::Path) {
@@ -955,6 +1016,7 @@ pub fn run(opts: &Opts) -> Report {
         }
     }
     check_temp_shaped_public_ids(&mut rep, property, &dir);
+    if property.map(|p| p == "C15").unwrap_or(true) { check_csv_files(&mut rep, &dir); }
     if property.map(|p| p == "C05").unwrap_or(true) { for i in 0..12 { check_substores(&mut rep, &dir, i); } for i in 0..108 { check_merge(&mut rep, &dir, i); } }
     // minimise
     let mut done: std::collections::BTreeSet<(String, String)> = Default::default();
